@@ -134,7 +134,7 @@ SETUP = [("makedirs", "d/e", False), ("writebytes", "d/g", b"gg"), ("writebytes"
 # missing, below a file, missing parent, file in a sub-directory, nested directory, new name in a directory
 CASES = ["/", "d", "m", "f", "h", "x", "f/x", "x/y", "d/g", "d/e", "d/new", "m/new", "f/x/y"]
 IO_MODES = ["r", "r+", "w", "w+", "a", "a+", "x", "x+", "rb", "w+b",
-            # accepted by fs.mode.Mode, refused by io.open (ValueError from inside OSFS.openbin)
+            # refused by io.open, and since /repo af07be9 by fs.mode.Mode itself (before: ValueError from inside OSFS.openbin only)
             "rw", "rr", "rbb", "r++", "wa", "rx", "a+r", "xw", "wb+b"]
 
 
